@@ -34,6 +34,8 @@ func runC17(c *Ctx) {
 	c17Contain(c)
 	c17MergeSites(c)
 	c17ReflectElem(c)
+	c17RequiredCheckedOnEverySuccess(c, "UNKNOWN")
+	c17IncludeOrderKept(c, "INCLUDE")
 }
 
 // onlyErrorReturns: every normal exit reachable from start is a return whose
